@@ -107,7 +107,9 @@ class LinearTransformViews:
                                 continue
                             if tier == "quick" and D == 3 and held == "parameter" and invert:
                                 continue
-                            yield {"D": D, "model": name, "held": held, "invert": invert, "align_corners": ac}
+                            heavy = D == 3 and (name == "QuaternionRotation" or (name == "EulerRotation" and held == "parameter"))
+                            yield {"D": D, "model": name, "held": held, "invert": invert, "align_corners": ac,
+                                   "skip_other": bool(tier == "quick" and heavy)}
                             if tier == "thorough" and D == 3 and held == "buffer" and not invert:
                                 yield {"D": D, "model": name, "held": held, "invert": invert, "align_corners": ac, "oriented_other": True}
 
@@ -144,8 +146,9 @@ class LinearTransformViews:
         h, hs = make_grid(K, "h", D, sizes=OSIZES[D], align_corners=not ac, axis_aligned=(D == 3 and not case.get("oriented_other")))
         outside_eq_band(K, gs, hs)
         outside_cube_band(K, gs, ac, hs, not ac)  # grids whose cubes coincide within allclose are treated as one domain
-        uo = K.call(t.disp, h)
-        if K.ensure_returns(uo):
+        # (quick tier: the 3-D conjugation of quaternion / tanh-parametrised Euler models is left to the thorough tier)
+        uo = K.call(t.disp, h) if not case.get("skip_other") else None
+        if uo is not None and K.ensure_returns(uo):
             oshape = OSIZES[D][::-1]
             yh = lattice(oshape, not ac)                                   # other grid's own cube coordinates
             B, b = SG.point_map(hs, cube_axes(not ac), gs, cube_axes(ac))    # other cube -> transform cube
@@ -405,3 +408,117 @@ class InverseVelocityBounded:
             err = (back - x).norm(dim=-1).max().item() / (2 / n)
             K.env["err_samples"] = err
             K.ensure("small", E.bconst(err < 0.05), text=f"C07: for velocity-field models on smooth fields to within a small fraction of a sample: {err:.4f} samples (bound 0.05)")
+
+
+@register
+class NonRigidViews:
+    """Non-rigid models holding an nn.Parameter: after the parameters were evaluated once and then replaced, the module call,
+    forward(grid=True), disp(), tensor() and disp(other grid) all describe the map of the *current* parameters.
+    Fields are affine in position (so that interpolation is exact) and keep the sample hull invariant."""
+
+    target = "deepali.spatial.base:NonRigidTransform.tensor"
+    properties = ("C06", "C09")
+    tol = 2e-4
+
+    def cases(self, tier):
+        for kind in ("ddf", "svf", "ffd"):
+            for held in ("parameter", "buffer"):
+                yield {"model": kind, "held": held}
+
+    def run(self, case, K):
+        import deepali.spatial as sp
+        from contracts.c11_c13_flow import affine_disp, hull, invariant_map
+
+        kind = case["model"]
+        D = 2
+        size = (5, 5) if kind == "ffd" else (4, 3)
+        g, gs = make_grid(K, "g", D, sizes=size, align_corners=True)
+        shape = size[::-1]
+        if kind == "ddf":
+            t = sp.DisplacementFieldTransform(g, params=(case["held"] == "parameter"))
+        elif kind == "svf":
+            t = sp.StationaryVelocityFieldTransform(g, params=(case["held"] == "parameter"), steps=1, scale=2.0)
+        else:
+            t = sp.FreeFormDeformation(g, params=(case["held"] == "parameter"), stride=2)
+        ex = K.reals("x", (1, 2, D), lo=Fraction(-1, 2), hi=Fraction(1, 2))
+        x = K.tensor(ex)
+        first = K.call(t, x, modifies=_mstate(t))  # buffers now hold the field of the default parameters
+        if K.ensure_returns(first, text=Q6I):
+            K.ensure_eq("identity", first, ex, text=Q6I)
+        P, tr = invariant_map(K, "m", D, hull(shape, True))
+        if kind == "ffd":
+            # B-spline coefficients that are affine in the control point position give the affine field itself (linear precision)
+            cshape = tuple(t.data().shape)
+            vals = np.empty(cshape, dtype=object)
+            for idx in np.ndindex(*cshape[2:]):
+                # control point (iy, ix) sits at cube coordinate -1 + (i - 1) * stride * 2 / (n - 1)
+                xc = [E.const(Fraction(-1) + Fraction((idx[1] - 1) * 2 * 2, size[0] - 1)), E.const(Fraction(-1) + Fraction((idx[0] - 1) * 2 * 2, size[1] - 1))]
+                y = SG.matvec(P, xc)
+                for i in range(D):
+                    vals[(0, i) + idx] = E.sub(E.add(y[i], tr[i]), xc[i])
+        else:
+            vals = affine_disp(P, tr, shape, True)
+        r = K.call(t.data_, K.tensor(vals), modifies=_mstate(t))
+        if not K.ensure_returns(r):
+            return
+        if kind == "svf":
+            Pm, tm = SG.matmul(P, P), [E.add(SG.matvec(P, tr)[i], tr[i]) for i in range(D)]  # one squaring step of scale 2 / 2
+        else:
+            Pm, tm = P, tr
+        lat = lattice(shape, True)
+        want_u = np.moveaxis(np.frompyfunc(E.sub, 2, 1)(apply_spec(Pm, tm, lat, False), lat), -1, 0)
+        u = K.call(t.disp, modifies=_mstate(t))
+        if K.ensure_returns(u):
+            K.ensure_eq("disp", K.val(u)[0], want_u, text=Q6V + " [disp() reflects the current parameters]")
+        ten = K.call(t.tensor, modifies=_mstate(t))
+        if K.ensure_returns(ten):
+            K.ensure_eq("tensor", K.val(ten)[0], want_u, text=Q6V + " [tensor()]")
+        y = K.call(t, x, modifies=_mstate(t))
+        if K.ensure_returns(y):
+            K.ensure_eq("points", y, apply_spec(Pm, tm, ex, False), text=Q6V + " [point map]")
+        yg = K.call(t, K.tensor(lat[None]), grid=True, modifies=_mstate(t))
+        if K.ensure_returns(yg):
+            K.ensure_eq("grid-points", K.val(yg)[0], apply_spec(Pm, tm, lat, False), text=Q6V + " [forward(grid=True) on the grid's own sample points]")
+
+
+def _mstate(t):
+    return [p for _, p in list(t.named_parameters()) + list(t.named_buffers())]
+
+
+@register
+class SequentialWithNonRigid:
+    """A sequential composite with a non-rigid member that is not first: members are applied in the listed order to the
+    already transformed points, with and without grid=True."""
+
+    target = "deepali.spatial.composite:SequentialTransform.forward"
+    properties = ("C06",)
+    tol = 2e-4
+
+    def cases(self, tier):
+        for kind in ("sequential",):
+            for grid_flag in (False, True):
+                yield {"kind": kind, "grid": grid_flag}
+
+    def run(self, case, K):
+        import deepali.spatial as sp
+        from contracts.c11_c13_flow import affine_disp, hull, invariant_map
+
+        D = 2
+        size = (4, 3)
+        shape = size[::-1]
+        g, gs = make_grid(K, "g", D, sizes=size, align_corners=True)
+        # first member: a contraction towards the centre (keeps every sample inside the hull), second: dense field
+        sc = K.reals("sc", (1, D), lo=Fraction(1, 2), hi=Fraction(9, 10))
+        first = sp.AnisotropicScaling(g, params=K.tensor(sc))
+        P, tr = invariant_map(K, "m", D, hull(shape, True))
+        second = sp.DisplacementFieldTransform(g, params=K.tensor(affine_disp(P, tr, shape, True)))
+        t = sp.SequentialTransform(first, second)
+        lat = lattice(shape, True)
+        x = K.tensor(lat[None])
+        y = K.call(t, x, grid=case["grid"], modifies=_mstate(t))
+        if not K.ensure_returns(y):
+            return
+        S = SG.diag(list(sc[0]))
+        mid = apply_spec(S, [E.ZERO] * D, lat, False)
+        want = apply_spec(P, tr, mid, False)
+        K.ensure_eq("composed", K.val(y)[0], want, text=Q6C + " [the dense member samples its field at the points already moved by the first member]")
